@@ -834,7 +834,7 @@ func runC17(o *opts) error {
 		return nil
 	}
 
-	n := 70
+	n := 150
 	if o.thorough() {
 		n = 1200
 	}
